@@ -25,7 +25,7 @@ def c18_count_heuristic(v, params):
         counts[nm] = counts.get(nm, 0) + 1
     declared = [[t['schema'], t['name']] for t in m['tables']]
     predicted = sorted(declared, key=lambda t: -counts.get(t[1], 0))
-    return predicted == case.get('observed_order')
+    return predicted == case.get('observed_order')     # (clause placement is checked before this kind can be reported)
 
 
 def c01_dotted_name(v, params):
@@ -164,3 +164,25 @@ def c05_dotted_enum(v, params):
         return False
     obs = v.get('observed') or []
     return bool(obs) and all('type is not the declared Enum object' in o for o in obs)
+
+
+# ---- C04 ---------------------------------------------------------------------------------------
+
+def c04_join_column_collision(v, params):
+    """Recorded defect: Reference.join_table names its columns <table name>_<column name>; when the two sides are
+    tables with the same bare name (a self many-to-many, or same-named tables in two schemas) and referenced column
+    names coincide, the join table gets duplicate column names.  Matches only if every reported problem is such a
+    collision and each is explained by a <> reference of the case whose computed column names really collide."""
+    if v['kind'] != 'join-columns-collide':
+        return False
+    from .props import c04
+    obs = v.get('observed') or []
+    colliding = 0
+    for spec in v['case']['refs']:
+        r = c04.mkref(*spec)
+        if r['type'] != '<>':
+            continue
+        names = [f'{t}_{c}' for _, t, c in r['col1'] + r['col2']]
+        if len(set(names)) != len(names):
+            colliding += 1
+    return colliding > 0 and len(obs) == colliding and all('COLLIDE' in o for o in obs)
